@@ -13,9 +13,9 @@ import (
 // snapshots; private fields are never inspected.
 func snapRoot(rb *commonmark.RootBlock) string {
 	var sb strings.Builder
-	longTexts = 0
 	fmt.Fprintf(&sb, "ROOT off=[%d,%d) line=%d src=%q\n", rb.StartOffset, rb.EndOffset, rb.StartLine, rb.Source)
-	snapNode(&sb, rb.Source, rb.AsNode(), 0)
+	long := 0 // inline nodes with a span over 4 KiB seen in this snapshot
+	snapNode(&sb, &long, rb.Source, rb.AsNode(), 0)
 	return sb.String()
 }
 
@@ -23,15 +23,13 @@ func snapRoot(rb *commonmark.RootBlock) string {
 // tree is compared).
 func snapTree(rb *commonmark.RootBlock) string {
 	var sb strings.Builder
-	longTexts = 0
 	fmt.Fprintf(&sb, "src=%q\n", rb.Source)
-	snapNode(&sb, rb.Source, rb.AsNode(), 0)
+	long := 0 // inline nodes with a span over 4 KiB seen in this snapshot
+	snapNode(&sb, &long, rb.Source, rb.AsNode(), 0)
 	return sb.String()
 }
 
-var longTexts int // inline nodes with a span over 4 KiB seen in the current snapshot
-
-func snapNode(sb *strings.Builder, src []byte, n commonmark.Node, depth int) {
+func snapNode(sb *strings.Builder, long *int, src []byte, n commonmark.Node, depth int) {
 	for i := 0; i < depth; i++ {
 		sb.WriteByte(' ')
 	}
@@ -54,7 +52,7 @@ func snapNode(sb *strings.Builder, src []byte, n commonmark.Node, depth int) {
 		}
 		sb.WriteByte('\n')
 		for i, c := 0, b.ChildCount(); i < c; i++ {
-			snapNode(sb, src, b.Child(i), depth+1)
+			snapNode(sb, long, src, b.Child(i), depth+1)
 		}
 		return
 	}
@@ -83,9 +81,9 @@ func snapNode(sb *strings.Builder, src []byte, n commonmark.Node, depth int) {
 	// the snapshot in any case; the text of nodes longer than 4 KiB is written
 	// for the first 8 of them per root block, then as length + hash.
 	if in.Span().Len() > 4096 {
-		longTexts++
+		*long++
 	}
-	if in.Span().Len() <= 4096 || longTexts <= 8 {
+	if in.Span().Len() <= 4096 || *long <= 8 {
 		if txt := in.Text(src); txt != "" {
 			if len(txt) > 4096 {
 				fmt.Fprintf(sb, " text=(%d bytes, hash %x)", len(txt), hashString(txt))
@@ -98,7 +96,7 @@ func snapNode(sb *strings.Builder, src []byte, n commonmark.Node, depth int) {
 	}
 	sb.WriteByte('\n')
 	for i, c := 0, in.ChildCount(); i < c; i++ {
-		snapNode(sb, src, in.Child(i).AsNode(), depth+1)
+		snapNode(sb, long, src, in.Child(i).AsNode(), depth+1)
 	}
 }
 
